@@ -248,5 +248,9 @@ func (rl *Shell) handleUndefined(bind inputrc.Bind, cmd func()) {
 	if rl.Keymap.Local() == keymap.Isearch {
 		rl.Hint.Reset()
 		rl.completer.Reset()
+
+		// The search minibuffer is gone: the line, cursor and selection
+		// of interest are those of the input line again.
+		rl.line, rl.cursor, rl.selection = rl.completer.GetBuffer()
 	}
 }
